@@ -5,7 +5,12 @@ the expected array E of every case is built here from the property statement (ce
 subregion membership by index ranges, source cell containing the centre) and never by calling the library.
 
 Bounded: seeded meshes of 1-4 dimensions with <= 7 cells per axis (quick) / 9 (thorough), 1-4 components,
-dtypes None/int/float/complex/bool."""
+dtypes None/int/float/complex/bool.
+
+Scale: every specification kind is additionally enumerated over the SCALE of the geometry (all axes of the order 1e-9, 1e-6, 1,
+1e6, or a different one of these per axis; "clean" multiples of the scale and non-representable corners) and of the values
+(1e-12 ... 1e12, optionally all values within a relative 1e-6 of each other).  No oracle uses an absolute tolerance: stored values
+are compared exactly, coordinates in ulp of the coordinate scale of their own axis, ties relative to the cell size of the axis."""
 import itertools
 import os
 import warnings
@@ -16,24 +21,28 @@ from .common import raises, ulp_close, rand_region
 PROPERTY = "C02"
 CLAUSES = {
     "C02.shape": "the stored array is a numpy array of shape (*n, nvdim)",
-    "C02.const": "constant spec: every cell holds the constant (scalar for nvdim=1, length-nvdim vector, 0 -> zero vector)",
-    "C02.array": "per-cell array spec (ndarray or nested list, shape (*n,nvdim) or (*n,) for nvdim=1): cell i holds spec[i]",
+    "C02.const": "constant spec: every cell holds exactly the constant, whatever its magnitude (scalar for nvdim=1, length-nvdim vector, 0 -> zero vector)",
+    "C02.array": "per-cell array spec (ndarray or nested list, shape (*n,nvdim) or (*n,) for nvdim=1): cell i holds exactly spec[i], also for tiny / huge / nearly constant data",
     "C02.callable": "callable spec: called with the cell centre pmin+(i+1/2)cell (8 ulp of the coordinate scale) and cell i holds its return value",
     "C02.dict": "dict spec: the first subregion (mesh listing order) that is a key of the dict and contains the cell wins, else 'default' (constant or callable); sub-specs may be constant/callable/array",
-    "C02.source": "source-field spec: cell holds the value of a source cell whose closed extent contains the cell centre (either neighbour on a tie)",
+    "C02.source": "source-field spec (equal / finer / coarser / shifted / larger mesh, same or different n, any scale of geometry and values): cell holds exactly the value of a source cell whose closed extent contains the cell centre (either neighbour when the centre is within 1e-6 source cells of a face)",
     "C02.sample": "field(p) == stored value of the cell containing p (interior points, centres, region corners; either neighbour for a point on a face)",
     "C02.component": "field.<label> is a scalar field on the same mesh holding column vdims.index(label); unknown labels raise AttributeError",
     "C02.iter": "iterating the field yields the stored cell values in mesh order (first dimension fastest), len == prod(n)",
     "C02.line": "field.line(p1,p2,n): n points p1+i(p2-p1)/(n-1) (8 ulp of the coordinate scale, first == p1), r == distance from p1 (16 ulp), values == stored value of the cell containing each point",
-    "C02.reject": "a spec of wrong shape / component count / type raises",
+    "C02.reject": "a spec of wrong shape / component count / type raises (a non-zero scalar for a vector field however small it is)",
     "C02.reject_unchanged": "after a rejected update_field_values / array assignment the field's array (bytes, shape, dtype) is unchanged",
 }
 RULE = ("per mesh dimension 1-4 x dtype {None,int,float,complex,bool} x spec kind {const,array,callable,dict,source}: seeded random regions "
         "(common.rand_region; exact power-of-two geometry and nanometre geometry for subregion meshes), random n, nvdim 1-4, default/custom/"
         "permuted labels, observation through constructor / update_field_values / array setter; every cell compared; sampling, component "
-        "access and iteration are checked on every field built; line and reject kinds separately; non-trivial = more than one cell; "
-        "distinct by (kind, params)")
+        "access and iteration are checked on every field built; line and reject kinds separately; then per mesh dimension 1-4 x geometry "
+        "scale class {1e-9, 1e-6, 1, 1e6, mixed per axis} x spec kind {const,array,callable,dict,line,reject, source on an equal / finer / "
+        "coarser / shifted by whole cells / shifted by a fraction of a cell / larger-region-same-n (random and whole-multiple cell) / free "
+        "mesh} with the value scale cycling through 1e-12..1e12 (a third of them nearly constant: relative spread 1e-6) and the field that "
+        "is updated pre-filled with values of the same scale; non-trivial = more than one cell; distinct by (kind, params)")
 ASSUMPTIONS = ["bounded: <= 9 cells per axis, <= 4 dimensions, <= 4 components, seeded sample of geometry and data",
+               "scales: coordinates / cell sizes of the order 1e-9 .. 1e6 (plus common.rand_region's log-uniform 1e-12 .. 1e6), values 1e-12 .. 1e12; int data <= 1e13",
                "dict: 'first-listed' is read as the listing order of mesh.subregions (the library's documented precedence)",
                "face points / centre-on-source-face ties: either neighbouring cell accepted (exact face behaviour is C01's)",
                "data for int/bool dtypes are generated representable in the dtype, so no conversion semantics are assumed"]
@@ -69,6 +78,46 @@ def nm_geom(rng, n):
 
 def rand_geom(rng, n):
     p1, p2 = rand_region(rng, len(n))
+    return {"p1": p1, "p2": p2, "n": list(n)}
+
+
+GSCALES = {"nm": 1e-9, "um": 1e-6, "unit": 1.0, "mega": 1e6}
+GCLASSES = ["nm", "um", "unit", "mega", "mixed"]
+VSCALES = [1e-12, 1e-9, 1e-6, 1e-3, 1.0, 1e3, 1e6, 1e9, 1e12]
+SRC_CFGS = ["equal", "finer", "coarser", "shifted", "shifted_frac", "same_n", "same_n_cells", "free"]
+
+
+def axis_scales(rng, gclass, ndim):
+    if gclass != "mixed":
+        return [GSCALES[gclass]] * ndim
+    names = list(GSCALES)
+    k = [int(rng.integers(4)) for _ in range(ndim)]
+    if ndim > 1 and len(set(k)) == 1:
+        k[int(rng.integers(ndim))] = (k[0] + 1 + int(rng.integers(3))) % 4
+    return [GSCALES[names[i]] for i in k]
+
+
+def scaled_geom(rng, n, scales, form):
+    """form 'clean': cell = m*scale, pmin = k*cell (what a user types: 5e-9, 2.5e-6, ...); 'far': the same a million cells away
+    from the origin (all coordinates of the mesh agree to a relative 1e-5); 'rand': non-representable corners with an offset of
+    up to 300 scales; either corner order per axis"""
+    p1, p2 = [], []
+    for nj, sj in zip(n, scales):
+        if form == "clean":
+            c = [1.0, 2.0, 3.0, 5.0, 7.0, 2.5, 0.5, 10.0, 12.5][int(rng.integers(9))] * sj
+            k = int(rng.integers(-6, 7))
+            a, b = k * c, (k + nj) * c
+        elif form == "far":
+            c = [1.0, 2.0, 5.0, 2.5][int(rng.integers(4))] * sj
+            k = int(rng.integers(-6, 7)) + (1000000 if rng.integers(2) else -1000000)
+            a, b = k * c, (k + nj) * c
+        else:
+            a = float(rng.uniform(-3, 3)) * sj * 10.0 ** int(rng.integers(0, 3))
+            b = a + float(rng.uniform(0.3, 1.7)) * sj
+        if rng.integers(2):
+            a, b = b, a
+        p1.append(float(a))
+        p2.append(float(b))
     return {"p1": p1, "p2": p2, "n": list(n)}
 
 
@@ -126,16 +175,27 @@ class Geo:
         return list(itertools.product(*out))
 
 
-def table(seed, shape, dtype):
-    """non-symmetric random per-cell data, representable in the dtype"""
+def table(seed, shape, dtype, vscale=1.0, voff=0.0):
+    """non-symmetric random per-cell data, representable in the dtype: (voff + u) * vscale with u in (-5, 5) (int: -9..9);
+    voff = 1e7 makes all values agree to a relative 1e-6 ("nearly constant")"""
     rng = np.random.default_rng(seed)
     if dtype == "int":
-        return rng.integers(-9, 10, size=shape).astype(np.int64)
+        t = rng.integers(-9, 10, size=shape).astype(np.int64)
+        k = int(min(max(vscale, 1.0), 1e6))
+        return t if (k == 1 and not voff) else (t + int(voff)) * k
     if dtype == "bool":
         return rng.integers(0, 2, size=shape).astype(bool)
     if dtype == "complex":
-        return rng.uniform(-5, 5, size=shape) + 1j * rng.uniform(-5, 5, size=shape)
-    return rng.uniform(-5, 5, size=shape)
+        t = rng.uniform(-5, 5, size=shape) + 1j * rng.uniform(-5, 5, size=shape)
+    else:
+        t = rng.uniform(-5, 5, size=shape)
+    return t if (vscale == 1.0 and not voff) else (t + voff) * vscale
+
+
+def vtable(pr, ddata):
+    """table() at the value scale of the case"""
+    vs, vo = float(pr.get("vscale", 1.0)), float(pr.get("voff", 0.0))
+    return lambda seed, shape, dtype=ddata: table(seed, shape, dtype, vs, vo)
 
 
 def pyval(v, container):
@@ -180,14 +240,15 @@ class Lookup:
         return self.T[idx]
 
 
-def make_field(mesh, nvdim, spec, dtype, via, vdims, seed):
-    """observe the spec through the constructor, update_field_values or the array setter"""
+def make_field(mesh, nvdim, spec, dtype, via, vdims, seed, vscale=1.0, voff=0.0):
+    """observe the spec through the constructor, update_field_values or the array setter (the field that is updated holds other
+    values of the same scale: within numpy's default tolerances of the new ones for small / nearly constant data)"""
     kw = {"dtype": _NP[dtype]}
     if vdims is not None:
         kw["vdims"] = list(vdims)
     if via == "ctor":
         return df.Field(mesh, nvdim=nvdim, value=spec, **kw)
-    start = table(seed + 17, (*mesh.n, nvdim), "float" if dtype == "none" else dtype)
+    start = table(seed + 17, (*mesh.n, nvdim), "float" if dtype == "none" else dtype, vscale, voff)
     f = df.Field(mesh, nvdim=nvdim, value=start, **kw)
     if via == "update":
         f.update_field_values(spec)
@@ -197,6 +258,89 @@ def make_field(mesh, nvdim, spec, dtype, via, vdims, seed):
 
 
 # ------------------------------------------------------------------ cases
+def add_subs(rng, pr, tiling):
+    """subregions (index ranges, random listing order) and the dict items of a 'dict' case"""
+    n = pr["geom"]["n"]
+    ndim = len(n)
+    subs = []
+    if tiling:
+        ax = int(np.argmax(n))
+        cut = int(rng.integers(1, n[ax])) if n[ax] > 1 else 1
+        lo1, hi1 = [0] * ndim, list(n)
+        hi1[ax] = cut
+        lo2, hi2 = [0] * ndim, list(n)
+        lo2[ax] = min(cut, n[ax] - 1) if n[ax] > 1 else 0
+        subs = [["left", lo1, hi1], ["right", lo2, hi2]]
+        if n[ax] == 1:
+            subs = [["left", [0] * ndim, list(n)]]
+    else:
+        for s in range(int(rng.integers(1, 5))):
+            lo = [int(rng.integers(0, k)) for k in n]
+            hi = [int(rng.integers(l + 1, k + 1)) for l, k in zip(lo, n)]
+            subs.append([["r1", "sub_b", "c3", "Dd"][s], lo, hi])
+        order = rng.permutation(len(subs)).tolist()
+        subs = [subs[i] for i in order]
+    pr["geom"]["subs"] = subs
+    names = [s[0] for s in subs]
+    if tiling:
+        keys = list(names)
+        default = None
+    else:
+        keys = [nm for nm in names if rng.integers(4) != 0]
+        default = ["const", "callable"][int(rng.integers(2))]
+    keys = [keys[i] for i in rng.permutation(len(keys)).tolist()]
+    items = [[nm, ["const", "callable", "array"][int(rng.integers(3))]] for nm in keys]
+    if default is not None:
+        items.insert(int(rng.integers(len(items) + 1)), ["default", default])
+    pr["items"] = items
+
+
+def source_cfg(rng, cfg, n, nmax):
+    """(src_n, src_ext, unit): the source region is the target region extended by src_ext[j] = [below, above] target edges
+    (unit 'edge') or target cells (unit 'cell') along axis j, divided into src_n cells"""
+    ndim = len(n)
+    zero = [[0.0, 0.0] for _ in range(ndim)]
+    if cfg == "equal":
+        return list(n), zero, "cell"
+    if cfg == "finer":          # even factors put every target centre on a source face (either neighbour), odd ones on a centre
+        return [k * int(rng.integers(2, 4)) if rng.integers(4) else k for k in n], zero, "cell"
+    if cfg == "coarser":
+        return [max(1, k // int(rng.integers(2, 4))) if rng.integers(4) else k for k in n], zero, "cell"
+    if cfg == "shifted":        # same cell, more cells, aligned
+        ext = [[float(rng.integers(0, 4)), float(rng.integers(0, 4))] for _ in range(ndim)]
+        if all(a == 0 and b == 0 for a, b in ext):
+            ext[int(rng.integers(ndim))][int(rng.integers(2))] = 2.0
+        return [int(k + a + b) for k, (a, b) in zip(n, ext)], ext, "cell"
+    if cfg == "shifted_frac":   # same cell, more cells, offset by a fraction of a cell (no ties: fraction not near 1/2)
+        ext, sn = [], []
+        for k in n:
+            a, b = int(rng.integers(0, 3)), int(rng.integers(0, 3))
+            t = float(rng.uniform(0.1, 0.4)) + 0.5 * int(rng.integers(2))
+            ext.append([a + t, b + 1 - t])
+            sn.append(k + a + b + 1)
+        return sn, ext, "cell"
+    if cfg in ("same_n", "same_n_cells"):   # SAME number of cells, larger region: larger cells
+        axes = [j for j in range(ndim) if rng.integers(2)]
+        big = [j for j in range(ndim) if n[j] > 1]
+        if big and not set(axes) & set(big):
+            axes.append(big[int(rng.integers(len(big)))])
+        if not axes:
+            axes = [int(rng.integers(ndim))]
+        ext = [[0.0, 0.0] for _ in range(ndim)]
+        for j in axes:
+            if cfg == "same_n":
+                ext[j] = [float(rng.uniform(0.0, 1.2)) * int(rng.integers(2)), float(rng.uniform(0.2, 1.2))]
+                if rng.integers(2):
+                    ext[j].reverse()
+            else:               # source cell = f * target cell, aligned
+                tot = n[j] * int(rng.integers(1, 3))
+                a = int(rng.integers(0, tot + 1))
+                ext[j] = [float(a), float(tot - a)]
+        return list(n), ext, "edge" if cfg == "same_n" else "cell"
+    ext = [[float(rng.uniform(0, 0.6)) * int(rng.integers(2)), float(rng.uniform(0, 0.6)) * int(rng.integers(2))] for _ in range(ndim)]
+    return [int(rng.integers(1, nmax + 2)) for _ in range(ndim)], ext, "edge"
+
+
 def cases(ctx):
     rng = ctx.rng
     quick = ctx.tier == "quick"
@@ -241,39 +385,7 @@ def cases(ctx):
                     if all(k == 1 for k in n0):
                         n0[0] = 3
                     pr = common(ndim, dtype, gen(rng, n0))
-                    n = pr["geom"]["n"]
-                    tiling = gi == 1 and rng.integers(2) == 0
-                    subs = []
-                    if tiling:
-                        ax = int(np.argmax(n))
-                        cut = int(rng.integers(1, n[ax])) if n[ax] > 1 else 1
-                        lo1, hi1 = [0] * ndim, list(n)
-                        hi1[ax] = cut
-                        lo2, hi2 = [0] * ndim, list(n)
-                        lo2[ax] = min(cut, n[ax] - 1) if n[ax] > 1 else 0
-                        subs = [["left", lo1, hi1], ["right", lo2, hi2]]
-                        if n[ax] == 1:
-                            subs = [["left", [0] * ndim, list(n)]]
-                    else:
-                        for s in range(int(rng.integers(1, 5))):
-                            lo = [int(rng.integers(0, k)) for k in n]
-                            hi = [int(rng.integers(l + 1, k + 1)) for l, k in zip(lo, n)]
-                            subs.append([["r1", "sub_b", "c3", "Dd"][s], lo, hi])
-                        order = rng.permutation(len(subs)).tolist()
-                        subs = [subs[i] for i in order]
-                    pr["geom"]["subs"] = subs
-                    names = [s[0] for s in subs]
-                    if tiling:
-                        keys = list(names)
-                        default = None
-                    else:
-                        keys = [nm for nm in names if rng.integers(4) != 0]
-                        default = ["const", "callable"][int(rng.integers(2))]
-                    keys = [keys[i] for i in rng.permutation(len(keys)).tolist()]
-                    items = [[nm, ["const", "callable", "array"][int(rng.integers(3))]] for nm in keys]
-                    if default is not None:
-                        items.insert(int(rng.integers(len(items) + 1)), ["default", default])
-                    pr["items"] = items
+                    add_subs(rng, pr, gi == 1 and rng.integers(2) == 0)
                     yield "dict", pr
                 # source field on a different mesh
                 for _k in range(1 if quick else 2):
@@ -321,6 +433,74 @@ def cases(ctx):
                 pr["bad"], pr["via"] = bad, via
                 yield "reject", pr
 
+    # ---- the same specification kinds over the SCALE of geometry and values
+    bads_sc = ["vec_len", "scalar_nonzero", "arr_extra_cell", "arr_wrong_nvdim", "callable_wrong_len", "dict_bad_sub",
+               "source_wrong_nvdim", "source_not_containing", "arr_flat_vector", "str"]
+    vi = int(rng.integers(len(VSCALES)))
+    bi = int(rng.integers(len(bads_sc)))
+
+    def scaled(ndim, gclass, form, nmin2=False):
+        nonlocal vi
+        n0 = rand_n(rng, ndim, nmax_for(ndim, ctx.tier))
+        if nmin2 and all(k == 1 for k in n0):
+            n0[int(rng.integers(ndim))] = 3
+        pr = common(ndim, DTYPES[int(rng.integers(len(DTYPES)))], scaled_geom(rng, n0, axis_scales(rng, gclass, ndim), form))
+        vi += 1 + int(rng.integers(4) == 0)     # cycles through the value scales, not in step with kinds / scale classes
+        pr["vscale"] = VSCALES[vi % len(VSCALES)]
+        pr["voff"] = 1e7 if rng.integers(3) == 0 else 0.0
+        pr["gclass"] = gclass
+        return pr
+
+    def form():
+        return ["clean", "rand", "clean", "rand", "far"][int(rng.integers(5))]
+
+    for _ in range(3 if quick else 30):
+        for ndim in (1, 2, 3, 4):
+            nmax = nmax_for(ndim, ctx.tier)
+            for gclass in GCLASSES:
+                pr = scaled(ndim, gclass, form())
+                pr["container"] = ["tuple", "list", "ndarray"][int(rng.integers(3))]
+                if rng.integers(3) == 0:
+                    pr["nvdim"], pr["vdims"], pr["container"] = 1, LABELS[1][int(rng.integers(2))], ["scalar", "npscalar"][int(rng.integers(2))]
+                pr["zero"] = False
+                yield "const", pr
+                pr = scaled(ndim, gclass, form())
+                pr["form"] = ["ndarray", "list", "flat"][int(rng.integers(3))]
+                if pr["form"] == "flat":
+                    pr["nvdim"], pr["vdims"] = 1, None
+                yield "array", pr
+                yield "callable", scaled(ndim, gclass, form())
+                pr = scaled(ndim, gclass, "far" if rng.integers(5) == 0 else "clean", nmin2=True)
+                add_subs(rng, pr, rng.integers(4) == 0)
+                yield "dict", pr
+                for cfg in SRC_CFGS:
+                    pr = scaled(ndim, gclass, form(), nmin2=True)
+                    pr["src_cfg"] = cfg
+                    pr["src_n"], pr["src_ext"], pr["src_ext_unit"] = source_cfg(rng, cfg, pr["geom"]["n"], nmax)
+                    yield "source", pr
+                if ndim > 1:
+                    pr = scaled(ndim, gclass, form(), nmin2=True)
+                    pr["mode"] = ["random", "diagonal", "axis"][int(rng.integers(3))]
+                    pr["t1"] = rng.uniform(0, 1, ndim).tolist()
+                    pr["t2"] = rng.uniform(0, 1, ndim).tolist()
+                    pr["npts"] = int(rng.integers(2, 12))
+                    yield "line", pr
+                for _k in range(2):
+                    bi += 1 + int(rng.integers(3))      # cycles through the kinds, not in step with the scale classes
+                    bad = bads_sc[bi % len(bads_sc)]
+                    pr = scaled(ndim, gclass, "clean")
+                    n0 = pr["geom"]["n"]
+                    if bad == "scalar_nonzero" or bad == "arr_flat_vector":
+                        pr["nvdim"], pr["vdims"] = int(rng.integers(2, 5)), None
+                    if bad == "dict_bad_sub":
+                        if n0[0] < 2:      # needs a proper sub-range along the first axis
+                            continue
+                        hi = list(n0)
+                        hi[0] = n0[0] - 1
+                        pr["geom"]["subs"] = [["part", [0] * ndim, hi]]
+                    pr["bad"], pr["via"] = bad, ["update", "setter", "ctor"][int(rng.integers(3))]
+                    yield "reject", pr
+
 
 # ------------------------------------------------------------------ check
 KIND_CLAUSE = {"const": "C02.const", "array": "C02.array", "callable": "C02.callable", "dict": "C02.dict", "source": "C02.source", "line": "C02.line", "reject": "C02.reject"}
@@ -362,6 +542,7 @@ def _check(kind, pr, ctx):
         return
     ddata = "float" if dtype == "none" else dtype
     shape = (*geo.n, nvdim)
+    table = vtable(pr, ddata)
     if kind == "reject":
         return check_reject(pr, ctx, geo, mesh)
 
@@ -401,7 +582,7 @@ def _check(kind, pr, ctx):
     else:
         raise AssertionError(kind)
 
-    r, f = raises(Exception, make_field, mesh, nvdim, spec, dtype, via, vdims, seed)
+    r, f = raises(Exception, make_field, mesh, nvdim, spec, dtype, via, vdims, seed, pr.get("vscale", 1.0), pr.get("voff", 0.0))
     if r:
         ctx.require(False, clause, "valid specification raised %s" % type(f).__name__,
                     sig=sig if sig.startswith("dict-callable-default") else sig + ":raises-" + type(f).__name__, error=repr(f)[:300])
@@ -423,6 +604,7 @@ def _check(kind, pr, ctx):
 def build_dict(pr, geo, mesh, ddata):
     nvdim, seed = pr["nvdim"], pr["seed"]
     shape = (*geo.n, nvdim)
+    table = vtable(pr, ddata)
     spec, tables, lookups = {}, {}, []
     default_kind = None
     for j, (name, k) in enumerate(pr["items"]):
@@ -509,8 +691,9 @@ def check_access(ctx, f, E, geo, seed, nvdim):
 def check_source(pr, ctx, geo, mesh):
     nvdim, dtype, seed = pr["nvdim"], pr["dtype"], pr["seed"]
     ddata = "float" if dtype == "none" else dtype
+    table = vtable(pr, ddata)
     ext = np.array(pr["src_ext"])
-    edge = geo.pmax - geo.pmin
+    edge = geo.cell if pr.get("src_ext_unit") == "cell" else geo.pmax - geo.pmin
     sg = Geo({"p1": (geo.pmin - ext[:, 0] * edge).tolist(), "p2": (geo.pmax + ext[:, 1] * edge).tolist(), "n": pr["src_n"], "dims": geo.dims})
     S = table(seed, (*sg.n, nvdim), ddata)
     src = df.Field(sg.mesh(), nvdim=nvdim, value=S, dtype=_NP[dtype])
@@ -518,7 +701,7 @@ def check_source(pr, ctx, geo, mesh):
         ctx.trivial()
         return
     shape = (*geo.n, nvdim)
-    r, f = raises(Exception, make_field, mesh, nvdim, src, dtype, pr["via"], pr["vdims"], seed)
+    r, f = raises(Exception, make_field, mesh, nvdim, src, dtype, pr["via"], pr["vdims"], seed, pr.get("vscale", 1.0), pr.get("voff", 0.0))
     if r:
         ctx.require(False, "C02.source", "source-field specification raised %s" % type(f).__name__, sig="source:raises-" + type(f).__name__, error=repr(f)[:300])
         return
@@ -539,7 +722,7 @@ def check_source(pr, ctx, geo, mesh):
 def check_line(pr, ctx, geo, mesh):
     nvdim, dtype, seed, npts = pr["nvdim"], pr["dtype"], pr["seed"], pr["npts"]
     ddata = "float" if dtype == "none" else dtype
-    E = table(seed, (*geo.n, nvdim), ddata)
+    E = vtable(pr, ddata)(seed, (*geo.n, nvdim))
     kw = {} if pr["vdims"] is None else {"vdims": list(pr["vdims"])}
     f = df.Field(mesh, nvdim=nvdim, value=E, dtype=_NP[dtype], **kw)
     edge = geo.pmax - geo.pmin
@@ -601,6 +784,8 @@ def check_reject(pr, ctx, geo, mesh):
     nvdim, dtype, seed, via, bad = pr["nvdim"], pr["dtype"], pr["seed"], pr["via"], pr["bad"]
     ddata = "float" if dtype == "none" else dtype
     n = geo.n
+    table = vtable(pr, ddata)
+    vs = float(pr.get("vscale", 1.0))
     E = table(seed, (*n, nvdim), ddata)
     other = table(seed + 1, (*n, nvdim), ddata)
     sig = "reject:" + bad
@@ -610,7 +795,7 @@ def check_reject(pr, ctx, geo, mesh):
             L += 1
         spec = pyval(table(seed + 2, (L,), ddata), ["tuple", "list", "ndarray"][seed % 3])
     elif bad == "scalar_nonzero":
-        spec = {"int": 3, "bool": True, "complex": 1 + 2j}.get(ddata, 2.5)
+        spec = {"int": 3, "bool": True, "complex": (1 + 2j) * vs}.get(ddata, 2.5 * vs)     # however small, it is not 0
     elif bad == "arr_extra_cell":
         spec = table(seed + 2, (n[0] + 1, *n[1:], nvdim), ddata)
     elif bad == "arr_wrong_nvdim":
